@@ -22,7 +22,7 @@ ASSUMPTIONS = ['"no alignment exists" is read as "no alignment of finite total c
                'ties: any optimal alignment is accepted (costs are compared, not paths)']
 N = {'quick': 4000, 'thorough': 150000}
 CLASSES = ['continuous', 'integer_ties', 'with_inf', 'boundary', 'small_brute', 'small_brute_inf', 'blank_in_labels', 'long', 'float32', 'float32_long', 'large_alphabet', 'very_long', 'huge_costs', 'negative_costs']
-REQUIRED = ['presentation:7', 'presentation:6', 'frames_over_32767', 'huge_cost_matrices', 'negative_blank_index', 'narrow_label_arrays', 'presentation:0', 'presentation:1', 'presentation:2', 'presentation:5', 'float32_matrices', 'feasible_checked', 'infeasible_checked', 'brute_checked', 'align_text_checked', 'nojit_compared']
+REQUIRED = ['big_trellises', 'trellises_over_2^27_cells', 'presentation:7', 'presentation:6', 'frames_over_32767', 'huge_cost_matrices', 'negative_blank_index', 'narrow_label_arrays', 'presentation:0', 'presentation:1', 'presentation:2', 'presentation:5', 'float32_matrices', 'feasible_checked', 'infeasible_checked', 'brute_checked', 'align_text_checked', 'nojit_compared']
 TIMEOUT = {'quick': 900, 'thorough': 7200}
 
 
@@ -232,7 +232,82 @@ def _nojit_main(seed, n):
     json.dump(out, sys.stdout)
 
 
+def min_cost_np(cost, labels, bpos):
+    """the same recursion as min_cost_dp, vectorised over the states (double precision): for trellises of millions of cells"""
+    L = len(labels)
+    states = np.full(2 * L + 1, bpos, dtype=np.int64)
+    states[1::2] = labels
+    can_skip = np.zeros(2 * L + 1, dtype=bool)
+    can_skip[3::2] = np.asarray(labels[1:]) != np.asarray(labels[:-1])
+    m = np.asarray(cost, dtype=np.float64)
+    c = np.full(2 * L + 1, np.inf)
+    c[:2] = m[0, states[:2]]
+    for t in range(1, m.shape[0]):
+        step = np.concatenate(([np.inf], c[:-1]))
+        skip = np.where(can_skip, np.concatenate(([np.inf, np.inf], c[:-2])), np.inf)
+        c = np.minimum(np.minimum(c, step), skip) + m[t, states]
+    return float(min(c[-1], c[-2]))
+
+
+def big_trellises(mon, ctx):
+    """lines whose trellis has tens to hundreds of millions of cells (a long line with a long transcription): the text packed into one end of the line,
+    double-precision costs that single precision cannot hold, more than 2^27 cells"""
+    fa = ctx.fa
+    rng = np.random.default_rng([ctx.seed, 5, 4242])
+    todo = [('packed', 6000, 1500), ('double_range', 6000, 1500), ('beyond_float32', 5700, 1500), ('cells_over_2^27', 34000, 2000)]
+    if ctx.tier == 'thorough':
+        todo += [('packed', 9000, 1100), ('double_range', 4500, 2000), ('cells_over_2^27', 68000, 1000)]
+    for name, T, L in todo:
+        C = int(rng.integers(3, 6))
+        blank = int(rng.integers(0, C))
+        nonblank = [c for c in range(C) if c != blank]
+        labels = [int(nonblank[k % len(nonblank)]) for k in range(L)]
+        labels[L // 2] = labels[L // 2 - 1]
+        if name == 'packed':
+            cost = rng.uniform(0.5, 1.5, size=(T, C))
+            start = 0 if rng.random() < 0.5 else T - (L + 12)
+            t = start + int(rng.integers(0, 5))
+            prev = None
+            for lab in labels:                      # a zero-cost path with the whole text inside one quarter of the line
+                if lab == prev:
+                    cost[t, blank] = 0.0
+                    t += 1
+                cost[t, lab] = 0.0
+                t += 1
+                prev = lab
+            on_path = np.zeros(T, bool)
+            on_path[start:t] = True
+            cost[~on_path, blank] = 0.0
+            cost[start:start + 5, blank] = 0.0
+        elif name == 'double_range':
+            cost = 1e8 + rng.uniform(10, 20, size=(T, C))
+        elif name == 'beyond_float32':
+            cost = rng.uniform(1, 2, size=(T, C)) * 1e39
+        else:
+            cost = rng.random((T, C)).astype(np.float32)
+        mon.cur_desc = {'leg': 'big_trellis', 'kind': name, 'frames': T, 'characters': L, 'classes': C, 'blank': blank}
+        opt = min_cost_np(cost, labels, blank)
+        mon.count('big_trellises')
+        mon.count('extra_evaluations')
+        if T * (2 * L + 1) > 2 ** 27:
+            mon.count('trellises_over_2^27_cells')
+        status, res = run_force_align(fa, cost, labels, blank)
+        if status != 'ok':
+            mon.violation('failure-iff-infeasible', {'kind': name, 'frames': T, 'characters': L, 'exception': status, 'msg': res, 'optimal_cost': opt})
+            continue
+        al = np.asarray(res).astype(np.int64) % C
+        if len(al) != T or collapse(al.tolist(), blank) != labels:
+            mon.violation('collapses-to-labels', {'kind': name, 'frames': T, 'characters': L})
+            continue
+        c = float(np.asarray(cost, dtype=np.float64)[np.arange(T), al].sum())
+        if not (c <= opt + max(1e-9, 1e-11 * abs(opt))):
+            mon.violation('minimal-cost', {'kind': name, 'frames': T, 'characters': L, 'cost': c, 'optimal': opt})
+        del cost, res, al
+
+
 def extra(mon, ctx):
+    if ctx.shard == (1 if ctx.nshards > 1 else 0):
+        big_trellises(mon, ctx)
     if ctx.shard != 0:
         return
     from vf import core
